@@ -33,26 +33,6 @@ impl GenerationPass for LivenessPass {
                     let func_exit_live_in = (node.live_out()) | func.exit().live_in();
                     changed |= func.exit().set_live_in(func_exit_live_in);
 
-                    // u_def[n] = (AND u_def[s] for all s in prev[n]) - kill[n] | (u_def[F_exit] AND return-registers)
-                    // kill[n] = caller-saved
-                    // NOTE: we use the UDEF_f because the udefs are all "candidates"
-                    // for returns. If one happens to be the return, we can be sure
-                    // that it is always defined. Otherwise, it is an error becuase
-                    // we don't know if it is defined or not, so we could be reading
-                    // a garbage value.
-                    // TLDR: udef -> return values are a safeguard that the value
-                    // has to come from the function.
-                    let u_def = (node
-                        .prevs()
-                        .clone()
-                        .into_iter()
-                        .filter(|x| visited.contains(x))
-                        .map(|x| x.u_def())
-                        .reduce(|acc, x| acc & x)
-                        .unwrap_or_default()
-                        - Register::caller_saved_set())
-                        | (func.exit().u_def() & Register::return_set());
-
                     // live_in[n] = (live_in[F_entry] & argument-registers) U (live_out[n] - kill[n])
                     // kill[n] = caller-saved
                     let live_in_temp = node.live_out() - node.kill_reg();
@@ -61,25 +41,12 @@ impl GenerationPass for LivenessPass {
                         | node.gen_reg();
 
                     changed |= node.set_live_in(live_in);
-                    changed |= node.set_u_def(u_def);
                 } else if node.is_ecall() {
                     // An ecall whose number is not known can read any of
                     // the argument registers.
-                    let (args, rets) = node
+                    let (args, _) = node
                         .known_ecall_signature()
                         .unwrap_or_else(|| (Register::argument_set(), RegisterSet::new()));
-
-                    // u_def[n] = (AND u_def[s] for all s in prev[n]) - caller-saved | ecall_returns
-                    let u_def = (node
-                        .prevs()
-                        .clone()
-                        .into_iter()
-                        .filter(|x| visited.contains(x))
-                        .map(|x| x.u_def())
-                        .reduce(|acc, x| acc & x)
-                        .unwrap_or_default()
-                        - Register::caller_saved_set())
-                        | rets;
 
                     // live_in[n] = (live_out[n] - caller-saved) U ecall_args U ecall_ins
                     // ecall_args = X17 (a7) in every case U inputs to the ecall if known by available value analysis, otherwise empty
@@ -87,50 +54,76 @@ impl GenerationPass for LivenessPass {
                         | Register::ecall_always_argument_set()
                         | args;
                     changed |= node.set_live_in(live_in);
-                    changed |= node.set_u_def(u_def);
                 } else if node.is_return() {
                     // live_in[n] = live_in[n] U gen[n]
                     let live_in = node.live_in() | node.gen_reg();
                     changed |= node.set_live_in(live_in);
-
-                    // u_def[n] = AND u_def[s] for all s in prev[n]
-                    let u_def = node
-                        .prevs()
-                        .clone()
-                        .into_iter()
-                        .filter(|x| visited.contains(x))
-                        .map(|x| x.u_def())
-                        .reduce(|acc, x| acc & x)
-                        .unwrap_or_default();
-                    changed |= node.set_u_def(u_def);
                 } else if node.is_function_entry() {
                     // live_in[n] = gen[n] U (live_out[n] - kill[n])
                     let live_in = (node.live_out() - node.kill_reg()) | node.gen_reg();
 
-                    // u_def[n] = live_in[n] AND argument-registers
-                    let u_def = live_in & Register::argument_set();
-
                     changed |= node.set_live_in(live_in);
-                    changed |= node.set_u_def(u_def);
                 } else {
-                    // u_def[n] = AND u_def[s] for all s in prev[n] | kill[n]
-                    let u_def = (node
-                        .prevs()
-                        .clone()
-                        .into_iter()
-                        .filter(|x| visited.contains(x))
-                        .map(|x| x.u_def())
-                        .reduce(|acc, x| acc & x)
-                        .unwrap_or_default())
-                        | node.kill_reg();
-
                     // live_in[n] = gen[n] U (live_out[n] - kill[n])
                     let live_in = (node.live_out() - node.kill_reg()) | node.gen_reg();
 
                     changed |= node.set_live_in(live_in);
-                    changed |= node.set_u_def(u_def);
                 }
-                visited.insert(node);
+            }
+
+            // The unconditionally defined registers (u_def) are a forward
+            // "must" fact: an intersection over the predecessors evaluated so
+            // far. A node none of whose predecessors has been evaluated has
+            // nothing to meet: giving it the empty set would send an "I know
+            // nothing" state round a loop that the real state then chases
+            // for ever. It waits for a predecessor instead; going through
+            // the nodes front to back lets most of them stop waiting at once.
+            // (Function entries do not look at their predecessors.)
+            for node in cfg.iter() {
+                if !node.is_function_entry()
+                    && !node.prevs().is_empty()
+                    && !node.prevs().iter().any(|x| visited.contains(x))
+                {
+                    continue;
+                }
+
+                // AND u_def[s] for all evaluated s in prev[n]
+                let from_prevs = node
+                    .prevs()
+                    .clone()
+                    .into_iter()
+                    .filter(|x| visited.contains(x))
+                    .map(|x| x.u_def())
+                    .reduce(|acc, x| acc & x)
+                    .unwrap_or_default();
+
+                let u_def = if let Some((func, _)) = node.calls_to_from_cfg(cfg) {
+                    // u_def[n] = (from_prevs - caller-saved) | (u_def[F_exit] AND return-registers)
+                    // NOTE: we use the UDEF_f because the udefs are all "candidates"
+                    // for returns. If one happens to be the return, we can be sure
+                    // that it is always defined. Otherwise, it is an error becuase
+                    // we don't know if it is defined or not, so we could be reading
+                    // a garbage value.
+                    // TLDR: udef -> return values are a safeguard that the value
+                    // has to come from the function.
+                    (from_prevs - Register::caller_saved_set())
+                        | (func.exit().u_def() & Register::return_set())
+                } else if node.is_ecall() {
+                    // u_def[n] = (from_prevs - caller-saved) | ecall_returns
+                    let (_, rets) = node.known_ecall_signature().unwrap_or_default();
+                    (from_prevs - Register::caller_saved_set()) | rets
+                } else if node.is_return() {
+                    // u_def[n] = from_prevs
+                    from_prevs
+                } else if node.is_function_entry() {
+                    // u_def[n] = live_in[n] AND argument-registers
+                    node.live_in() & Register::argument_set()
+                } else {
+                    // u_def[n] = from_prevs | kill[n]
+                    from_prevs | node.kill_reg()
+                };
+                changed |= node.set_u_def(u_def);
+                changed |= visited.insert(node);
             }
         }
         Ok(())
